@@ -103,7 +103,8 @@ def run_prop(prop, tier, seed, replay=None, make_cases=None):
             stats['macro_rejected'] += 1
             if prop == 'C04' and witness:
                 nontrivial.add(c.invocation())
-            if (prop in ('C15', 'C16') or c.kind == 'combo') and not witness:
+            by_construction = c.kind in ('flat', 'multi', 'payload', 'unsized', 'split', 'arity', 'tworoots', 'ltbound') or c.kind.startswith('targs:')
+            if (prop in ('C15', 'C16') or c.kind == 'combo' or (prop in ('C01', 'C02') and by_construction)) and not witness:
                 # one family per instantiation, pairwise distinguished on a shared key: must be accepted
                 violations.append(dict(case_dump(c), kind='property', request=c.invocation(), errors=o['macro_errors'][:4],
                                        oracle='the invocation (one family per instantiation, blocks pairwise distinguished on a shared key, no probe satisfies two blocks) does not compile: %s' % o['macro_errors'][:3]))
